@@ -311,6 +311,10 @@ func genC08(r *Rng, e *Emitter, n int) {
 			b1, mn1, mx1 := box()
 			if r.chance(1, 2) {
 				b2, mn2, mx2 := box()
+				if r.chance(1, 5) { // a box asked about itself (every pair of a slice of boxes, i == j included)
+					b2, mn2, mx2 = b1, mn1, mx1
+					e.tally("overlaps-itself")
+				}
 				e.tally("op=overlaps")
 				e.emit("C08.overlaps", fmt.Sprintf("(%d %s %s %s %s)", int(l), sxCoord(mn1), sxCoord(mx1), sxCoord(mn2), sxCoord(mx2)),
 					guard(func() string { return fmt.Sprintf("(ok %v)", b1.Overlaps(l, b2)) }))
